@@ -89,11 +89,11 @@ Definition c03_zone (os : list occ) (ds : list declinfo) (reported : list (range
 (** C02. bit 64: a variable with an (unaffected) use is flagged; bit 128: a variable never mentioned
     again is not flagged. [captured r] tells whether the implementation resolved any reference to r. *)
 Definition c02_zone (os : list occ) (ds : list declinfo) (roots : list string)
-           (flagged : list range) (captured : range -> bool) : N * N :=
+           (flagged : list range) (captured : range -> bool) (ignored : string -> bool) (allow_self : bool) : N * N :=
   fold_left (fun acc d =>
-    match d_kind d with
-    | DSelf => acc
-    | _ =>
+    match d_kind d, allow_self with
+    | DSelf, true => acc
+    | _, _ =>
         let r := t_range (d_tok d) in
         let bound := fun o => match o_bind o with OLocal x => range_eq x r | _ => false end in
         let used := existsb (fun o => bound o && match o_kind o with OUse => true | _ => false end
@@ -105,7 +105,7 @@ Definition c02_zone (os : list occ) (ds : list declinfo) (roots : list string)
           (* an unaffected use exists, yet flagged.  The declaration itself may sit in an affected
              position (a closure walked late): then its uses were resolved elsewhere *)
           if negb (d_flags d =? 0) then (fst acc, N.lor (snd acc) (d_flags d)) else (N.lor (fst acc) 64, snd acc)
-        else if negb mentioned && negb (ignored_name name) && negb is_flagged then
+        else if negb mentioned && negb (ignored name) && negb is_flagged then
           if in_roots name roots then (fst acc, N.lor (snd acc) K8)
           else if captured r then (fst acc, N.lor (snd acc) KA)
           else (N.lor (fst acc) 128, snd acc)
